@@ -37,22 +37,16 @@ structure Checkpoint (V S X : Type) where
   state : S                       -- State
   subs : List (Key × X)           -- SubGraphs
 
-/-- observable events of one call of `runner.run` (paths are relative to the graph being run;
-    events of a nested run are re-emitted by the parent with the node key prefixed) -/
+/-- observable events of one call of `runner.run`, at the level of the graph being run; what
+    happens inside a node that is itself a graph is kept as a `nested` block under the node key -/
 inductive Ev (V S X : Type) where
-  | step (p : List Key) (tasks : List (Key × Bool))  -- a superstep of the graph at path `p` submits these
-                                                      -- tasks (flag: the task was handed a nested checkpoint)
-  | start (p : List Key) (input : V)                 -- node at path `p` begins executing on `input` (after its pre-handler)
-  | finish (p : List Key)                            -- node at path `p` completed with an output
-  | interrupt (p : List Key) (info : Info S X)       -- the graph at path `p` returns an interrupt
-  | storeSet                                         -- `checkPointer.set` under the caller's id
-
-def Ev.pfx {V S X} (k : Key) : Ev V S X → Ev V S X
-  | .step p ts => .step (k :: p) ts
-  | .start p v => .start (k :: p) v
-  | .finish p => .finish (k :: p)
-  | .interrupt p i => .interrupt (k :: p) i
-  | .storeSet => .storeSet
+  | step (tasks : List (Key × Bool))      -- a superstep submits these tasks (flag: the task was
+                                          -- handed a nested checkpoint by `forwardCheckPoint`)
+  | start (k : Key) (input : V)           -- node `k` begins executing on `input` (after its pre-handler)
+  | finish (k : Key)                      -- node `k` completed with an output
+  | nested (k : Key) (evs : List (Ev V S X))  -- events of the run nested in node `k`
+  | interrupt (info : Info S X)           -- the run returns an interrupt carrying `info`
+  | storeSet                              -- `checkPointer.set` under the caller's id
 
 /-- what a node body can do -/
 inductive BodyRes (V S X : Type) where
@@ -131,51 +125,64 @@ def mkTasks {V X} (stale : List (Key × X)) (ts : List (Key × V)) : List (Task 
 def restoreTasks {V X} (inputs : List (Key × V)) (skip : List Key) (subs : List (Key × X)) : List (Task V X) :=
   inputs.map (fun t => { key := t.1, input := t.2, skipPre := skip.contains t.1, sub := alookup t.1 subs })
 
+/-- the pre-handler of one task (`currentTask.call.preProcessor != nil && !currentTask.skipPreHandler`) -/
+def preOne {V S X} (r : IRunner V S X) (t : Task V X) (st : S) : Task V X × S :=
+  match r.inode? t.key with
+  | none => (t, st)
+  | some n =>
+    match n.pre with
+    | none => (t, st)
+    | some h => if t.skipPre then (t, st) else ({ t with input := (h t.input st).1 }, (h t.input st).2)
+
 /-- pre-handlers of `taskManager.submit`, in submission order -/
 def runPres {V S X} (r : IRunner V S X) : List (Task V X) → S → List (Task V X) × S
   | [], st => ([], st)
   | t :: rest, st =>
-    let (t', st') : Task V X × S :=
-      match r.inode? t.key with
-      | none => (t, st)
-      | some n =>
-        match n.pre with
-        | none => (t, st)
-        | some h => if t.skipPre then (t, st) else let (v, s) := h t.input st; ({ t with input := v }, s)
-    let (rest', st'') := runPres r rest st'
-    (t' :: rest', st'')
+    let p := preOne r t st
+    let q := runPres r rest p.2
+    (p.1 :: q.1, q.2)
 
-/-- node bodies of one batch (a node without an `INode` entry behaves as a pass-through) -/
+def BodyRes.st {V S X} : BodyRes V S X → S
+  | .done _ s => s | .rerun s => s | .subInt _ s => s | .fail _ s => s
+
+/-- the body of one task (a node without an `INode` entry behaves as a pass-through) -/
+def bodyOne {V S X} (r : IRunner V S X) (t : Task V X) (st : S) : BodyOut V S X :=
+  match r.inode? t.key with
+  | none => { res := .done t.input st }
+  | some n => n.body t.input st t.sub
+
+/-- events of one task: its start, what a nested run did, its completion -/
+def taskEvs {V S X} (t : Task V X) (bo : BodyOut V S X) : List (Ev V S X) :=
+  (Ev.start t.key t.input :: (if bo.evs.isEmpty then [] else [Ev.nested t.key bo.evs])) ++
+  (match bo.res with | .done _ _ => [Ev.finish t.key] | _ => [])
+
+/-- node bodies of one batch -/
 def runBodies {V S X} (r : IRunner V S X) : List (Task V X) → S →
     List (Key × BodyRes V S X) × S × List (Ev V S X)
   | [], st => ([], st, [])
   | t :: rest, st =>
-    let bo : BodyOut V S X :=
-      match r.inode? t.key with
-      | none => { res := .done t.input st }
-      | some n => n.body t.input st t.sub
-    let st' := match bo.res with
-      | .done _ s => s | .rerun s => s | .subInt _ s => s | .fail _ s => s
-    let fin : List (Ev V S X) := match bo.res with
-      | .done _ _ => [.finish [t.key]] | _ => []
-    let (rs, st'', evs) := runBodies r rest st'
-    ((t.key, bo.res) :: rs, st'', (Ev.start [t.key] t.input :: bo.evs.map (Ev.pfx t.key)) ++ fin ++ evs)
+    let bo := bodyOne r t st
+    let q := runBodies r rest bo.res.st
+    ((t.key, bo.res) :: q.1, q.2.1, taskEvs t bo ++ q.2.2)
 
-/-- post-handlers (`waitOne`), in completion order -/
+/-- the post-handler of one collected task (`waitOne`) -/
+def postOne {V S X} (r : IRunner V S X) (k : Key) (res : BodyRes V S X) (st : S) : TaskOut V X × S :=
+  match res with
+  | .done out _ =>
+    (match (r.inode? k).bind (·.post) with
+     | none => (.done out, st)
+     | some h => (.done (h out st).1, (h out st).2))
+  | .rerun _ => (.rerun, st)
+  | .subInt x _ => (.subInt x, st)
+  | .fail e _ => (.fail e, st)
+
+/-- post-handlers, in completion order -/
 def runPosts {V S X} (r : IRunner V S X) : List (Key × BodyRes V S X) → S → List (Key × TaskOut V X) × S
   | [], st => ([], st)
-  | (k, res) :: rest, st =>
-    let (o, st') : TaskOut V X × S :=
-      match res with
-      | .done out _ =>
-        (match (r.inode? k).bind (·.post) with
-         | none => (.done out, st)
-         | some h => let (v, s) := h out st; (.done v, s))
-      | .rerun _ => (.rerun, st)
-      | .subInt x _ => (.subInt x, st)
-      | .fail e _ => (.fail e, st)
-    let (rest', st'') := runPosts r rest st'
-    ((k, o) :: rest', st'')
+  | kr :: rest, st =>
+    let p := postOne r kr.1 kr.2 st
+    let q := runPosts r rest p.2
+    ((kr.1, p.1) :: q.1, q.2)
 
 /-- first failure in completion order (`resolveInterruptCompletedTasks` returns it wrapped) -/
 def firstFail {V X} : List (Key × TaskOut V X) → Option Err
@@ -212,34 +219,46 @@ inductive CoreOut (V S X : Type) where
   /-- first `calculateNextTasks` done: channels, next tasks, the finished tasks -/
   | next (cm : Chans V) (ts : List (Key × V)) (dones : List (Done V)) (st : S)
 
-/-- submit + wait + resolve + first calculateNextTasks -/
-def stepCore {V S X} (ops : ValOps V) (r : IRunner V S X) (sched : ISched V S X) (ls : LoopSt V S X) :
-    List (Ev V S X) × CoreOut V S X :=
-  let (tasks1, st1) := runPres r ls.tasks ls.st
-  let ev0 : Ev V S X := .step [] (tasks1.map (fun t => (t.key, t.sub.isSome)))
-  let (bres, st2, evs) := runBodies r tasks1 st1
-  let (coll, st3) := runPosts r (sched bres) st2
+def TaskOut.isSR {V X} : TaskOut V X → Bool
+  | .subInt _ => true | .rerun => true | _ => false
+
+/-- wait + resolve + first calculateNextTasks, from the collected body results -/
+def coreOut {V S X} (ops : ValOps V) (r : IRunner V S X) (sched : ISched V S X) (cm : Chans V)
+    (bres : List (Key × BodyRes V S X)) (st2 : S) : CoreOut V S X :=
+  let po := runPosts r (sched bres) st2
+  let coll := po.1
+  let st3 := po.2
   match firstFail coll with
-  | some e => (ev0 :: evs, .fail e)
+  | some e => .fail e
   | none =>
     let dones := doneOf coll
     let subs := subIntOf coll
     let reruns := rerunOf coll
     if !subs.isEmpty || !reruns.isEmpty then
       -- handleInterruptWithSubGraphAndRerunNodes: fold the other finished tasks, no `get`
-      match resolve r.base ls.cm dones with
-      | .error e => (ev0 :: evs, .fail e)
+      match resolve r.base cm dones with
+      | .error e => .fail e
       | .ok res =>
         let cm1 := updateValues r.base res.cm res.writes
         let cm2 := updateDeps r.base cm1 res.deps
-        let restore := (coll.filter (fun o => match o.2 with | .subInt _ => true | .rerun => true | _ => false)).map (·.1)
-        (ev0 :: evs, .sr cm2 restore subs reruns dones st3)
-    else if coll.isEmpty then (ev0 :: evs, .fail { cls := .noTasks })
+        .sr cm2 ((coll.filter (fun o => o.2.isSR)).map (·.1)) subs reruns dones st3
+    else if coll.isEmpty then .fail { cls := .noTasks }
     else
-      match calcNext ops r.base ls.cm dones with
-      | .error e => (ev0 :: evs, .fail e)
-      | .ok (_, .result v) => (ev0 :: evs, .done v)
-      | .ok (cm', .tasks ts) => (ev0 :: evs, .next cm' ts dones st3)
+      match calcNext ops r.base cm dones with
+      | .error e => .fail e
+      | .ok (_, .result v) => .done v
+      | .ok (cm', .tasks ts) => .next cm' ts dones st3
+
+/-- the tasks a superstep submits, as the trace shows them -/
+def stepTasks {V S X} (r : IRunner V S X) (ls : LoopSt V S X) : List (Key × Bool) :=
+  (runPres r ls.tasks ls.st).1.map (fun t => (t.key, t.sub.isSome))
+
+/-- submit + wait + resolve + first calculateNextTasks -/
+def stepCore {V S X} (ops : ValOps V) (r : IRunner V S X) (sched : ISched V S X) (ls : LoopSt V S X) :
+    List (Ev V S X) × CoreOut V S X :=
+  let p := runPres r ls.tasks ls.st
+  let b := runBodies r p.1 p.2
+  (Ev.step (stepTasks r ls) :: b.2.2, coreOut ops r sched ls.cm b.1 b.2.1)
 
 /-- what one iteration of the main loop ends in -/
 inductive StepOut (V S X : Type) where
@@ -252,29 +271,33 @@ inductive StepOut (V S X : Type) where
 def simpleCP {V S X} (cm : Chans V) (ts : List (Key × V)) (st : S) : Checkpoint V S X :=
   { chans := cm, inputs := ts, skipPre := [], state := st, subs := [] }
 
-/-- one iteration of `for step := 0; ; step++` after the step guard -/
-def stepI {V S X} (ops : ValOps V) (r : IRunner V S X) (sched : ISched V S X) (ls : LoopSt V S X) :
-    List (Ev V S X) × StepOut V S X :=
-  match stepCore ops r sched ls with
-  | (evs, .done v) => (evs, .done v)
-  | (evs, .fail e) => (evs, .fail e)
-  | (evs, .sr cm restore subs reruns dones st) =>
-    (evs, .intr
+/-- the interrupt decisions after the first calculateNextTasks -/
+def finishStep {V S X} (ops : ValOps V) (r : IRunner V S X) (stale : List (Key × X)) :
+    CoreOut V S X → StepOut V S X
+  | .done v => .done v
+  | .fail e => .fail e
+  | .sr cm restore subs reruns dones st =>
+    .intr
       { chans := cm, inputs := restore.map (fun k => (k, ops.zero)), skipPre := subs.map (·.1), state := st, subs := subs }
-      { state := st, after := afterHits r.intAfter dones, rerun := reruns, subs := subs })
-  | (evs, .next cm ts dones st) =>
+      { state := st, after := afterHits r.intAfter dones, rerun := reruns, subs := subs }
+  | .next cm ts dones st =>
     let before := hitKeys ts r.intBefore
     let after := afterHits r.intAfter dones
     if before.isEmpty && after.isEmpty then
-      (evs, .next { cm := cm, tasks := mkTasks ls.stale ts, st := st, stale := ls.stale })
+      .next { cm := cm, tasks := mkTasks stale ts, st := st, stale := stale }
     else
       -- waitAll returns nothing in batch mode; calculateNextTasks is called once more
       match calcNext ops r.base cm [] with
-      | .error e => (evs, .fail e)
-      | .ok (_, .result v) => (evs, .done v)
+      | .error e => .fail e
+      | .ok (_, .result v) => .done v
       | .ok (cm2, .tasks ts2) =>
-        (evs, .intr (simpleCP cm2 (ts ++ ts2) st)
-          { state := st, before := before ++ hitKeys ts2 r.intBefore, after := after })
+        .intr (simpleCP cm2 (ts ++ ts2) st)
+          { state := st, before := before ++ hitKeys ts2 r.intBefore, after := after }
+
+/-- one iteration of `for step := 0; ; step++` after the step guard -/
+def stepI {V S X} (ops : ValOps V) (r : IRunner V S X) (sched : ISched V S X) (ls : LoopSt V S X) :
+    List (Ev V S X) × StepOut V S X :=
+  ((stepCore ops r sched ls).1, finishStep ops r ls.stale (stepCore ops r sched ls).2)
 
 /-- result of one call of `runner.run` -/
 inductive Res (V S X : Type) where
@@ -289,20 +312,20 @@ structure Out (V S X : Type) where
 /-- events of returning an interrupt: the error carries the info; the store is written only by
     a top-level run that was given a checkpoint id (fact `storeOnlyTopLevelWithID`) -/
 def intrEvs {V S X} (isSub hasID : Bool) (info : Info S X) : List (Ev V S X) :=
-  .interrupt [] info :: (if !isSub && hasID then [.storeSet] else [])
+  .interrupt info :: (if !isSub && hasID then [.storeSet] else [])
 
 /-- the main loop; `fuel` = remaining step budget (`step >= maxSteps` guard) -/
 def loopI {V S X} (ops : ValOps V) (r : IRunner V S X) (sched : ISched V S X) (isSub hasID : Bool) :
     Nat → LoopSt V S X → Out V S X
   | 0, _ => { res := .failed { cls := if r.base.dag then .fuel else .maxSteps }, evs := [] }
   | fuel + 1, ls =>
-    match stepI ops r sched ls with
-    | (evs, .done v) => { res := .done v, evs := evs }
-    | (evs, .fail e) => { res := .failed e, evs := evs }
-    | (evs, .intr cp info) => { res := .interrupted cp info, evs := evs ++ intrEvs isSub hasID info }
-    | (evs, .next ls') =>
-      let o := loopI ops r sched isSub hasID fuel ls'
-      { o with evs := evs ++ o.evs }
+    match (stepI ops r sched ls).2 with
+    | .done v => { res := .done v, evs := (stepI ops r sched ls).1 }
+    | .fail e => { res := .failed e, evs := (stepI ops r sched ls).1 }
+    | .intr cp info => { res := .interrupted cp info, evs := (stepI ops r sched ls).1 ++ intrEvs isSub hasID info }
+    | .next ls' =>
+      { res := (loopI ops r sched isSub hasID fuel ls').res,
+        evs := (stepI ops r sched ls).1 ++ (loopI ops r sched isSub hasID fuel ls').evs }
 
 /-- `channelManager.loadChannels`: every channel of the fresh manager that the checkpoint has is replaced -/
 def loadChans {V} (init cp : Chans V) : Chans V :=
@@ -354,21 +377,21 @@ def run₀ {V S X} (ops : ValOps V) (cfg : Cfg) (r : IRunner V S X) (sched : ISc
 /-! ### projections used by the property statements -/
 
 def Ev.isObs {V S X} : Ev V S X → Bool
-  | .step .. => true | .start .. => true | .finish .. => true | _ => false
+  | .step .. => true | .start .. => true | .finish .. => true | .nested .. => true | _ => false
 
-/-- the node-level events (supersteps, node starts with inputs, completions) -/
+/-- everything the nodes did (supersteps, node starts with inputs, completions, nested runs) -/
 def obsEvs {V S X} (evs : List (Ev V S X)) : List (Ev V S X) := evs.filter Ev.isObs
 
-/-- node executions with their inputs -/
-def execLog {V S X} : List (Ev V S X) → List (List Key × V)
+/-- node executions of this level with their inputs -/
+def execLog {V S X} : List (Ev V S X) → List (Key × V)
   | [] => []
-  | .start p v :: rest => (p, v) :: execLog rest
+  | .start k v :: rest => (k, v) :: execLog rest
   | _ :: rest => execLog rest
 
-/-- supersteps of the graph itself (path []) -/
+/-- supersteps of the graph itself -/
 def topSteps {V S X} : List (Ev V S X) → List (List (Key × Bool))
   | [] => []
-  | .step [] ts :: rest => ts :: topSteps rest
+  | .step ts :: rest => ts :: topSteps rest
   | _ :: rest => topSteps rest
 
 def Out.finalOf {V S X} : List (Out V S X) → Option (Res V S X)
